@@ -4,6 +4,7 @@
 #include <fstream>
 #include <sstream>
 #include <sys/stat.h>
+#include <sched.h>
 
 namespace vk {
 
@@ -78,6 +79,9 @@ struct Runner {
 
   void worker_loop() {
     prctl(PR_SET_CHILD_SUBREAPER, 1);
+    // pin the controller and (by inheritance) all of its simulated processes to one CPU: a request/reply hand-off is then a
+    // plain context switch on that CPU (no cross-CPU wake-up), which is several times cheaper and scales with the worker count
+    { long ncpu = sysconf(_SC_NPROCESSORS_ONLN); cpu_set_t cs; CPU_ZERO(&cs); CPU_SET(wid % (ncpu > 0 ? ncpu : 1), &cs); sched_setaffinity(0, sizeof cs, &cs); }
     setup_shm();
     Shared *sh = ex.sh;
     double t0 = now_s();
